@@ -383,6 +383,15 @@ pub open spec fn eff_payload(st: &ParseState, code0: u8, p: Seq<u8>) -> Seq<u8> 
 pub open spec fn all_closable(st: &ParseState) -> bool {
 	forall|k: int| 0 <= k < st.game.frames.ports@.len() ==> port_closable(#[trigger] &st.game.frames.ports@[k], st.game.frames.id@.len())
 }
+// exactly the code byte and the table-given number of payload bytes left the stream
+pub open spec fn consumed_one_event<R: Read>(st: &ParseState, r0: &R, r1: &R) -> bool {
+	let rest = r0.rest();
+	&&& rest.len() >= 1 && payload_size(st, rest[0]) > 0 && rest.len() >= 1 + payload_size(st, rest[0])
+	&&& r1.rest() == skip(rest, 1 + payload_size(st, rest[0]))
+	// (the code byte, then the payload)
+	&&& r1.consumed() == r0.consumed() + rest.subrange(0, 1) + rest.subrange(1, 1 + payload_size(st, rest[0]))
+	&&& r1.hit_eof() == r0.hit_eof()
+}
 // premise on the bytes about to be read (nothing is demanded when they do not even form a sized event)
 pub open spec fn next_event_ok(st: &ParseState, rest: Seq<u8>) -> bool {
 	rest.len() >= 1 && payload_size(st, rest[0]) > 0 && rest.len() >= 1 + payload_size(st, rest[0]) ==> {
@@ -482,92 +491,114 @@ pub open spec fn event_effect(a: &ParseState, b: &ParseState, code0: u8, p: Seq<
 
 // parse_event is checked once per class of the next event code (the same body and the same postcondition each time;
 // the classes are exhaustive), which keeps each solver query small
-//@fn src/io/slippi/de.rs | - | parse_event | ret=res | twin=__pre | drop=if let Some\(ref d\) = opts | drop=\*state\.event_counts\.entry | sub=/r.read_exact(&mut buf)?/r.read_exact(buf.as_mut_slice())?/ | sub=/bytes: buf.to_vec(),/bytes: to_vec_u8(&buf),/
-	requires within_input_bound(&*old(state)), state_swf(&*old(state)), r.inv(),
-		next_event_ok(&*old(state), r.rest()),
-		r.rest().len() >= 1 ==> r.rest()[0] == 0x37,
+//@fn src/io/slippi/de.rs | - | parse_event | ret=res | twin=__pre | drop=if let Some\(ref d\) = opts | drop=\*state\.event_counts\.entry | sigsub=/mut r: R,/r: &mut R,/ | sub=/r.read_exact(&mut buf)?/r.read_exact(buf.as_mut_slice())?/ | sub=/bytes: buf.to_vec(),/bytes: to_vec_u8(&buf),/
+	requires within_input_bound(&*old(state)), state_swf(&*old(state)), (*old(r)).inv(),
+		next_event_ok(&*old(state), (*old(r)).rest()), !(*old(r)).hit_eof(),
+		(*old(r)).rest().len() >= 1 ==> (*old(r)).rest()[0] == 0x37,
 	ensures
-		res is Ok ==> r.rest().len() >= 1 && payload_size(&*old(state), r.rest()[0]) > 0 && r.rest().len() >= 1 + payload_size(&*old(state), r.rest()[0]) /*[C12.event_is_sized_by_table]*/,
-		res is Ok ==> res->Ok_0 == eff_code(&*old(state), r.rest()[0], r.rest().subrange(1, 1 + payload_size(&*old(state), r.rest()[0]))) /*[C12.returns_dispatched_code]*/,
-		res is Ok ==> (*final(state)).bytes_read == (*old(state)).bytes_read + 1 + payload_size(&*old(state), r.rest()[0]) /*[C12.bytes_read_accounting]*/,
+		(*final(r)).inv(),
+		res is Ok ==> consumed_one_event(&*old(state), &*old(r), &*final(r)) /*[C12.exactly_one_event_consumed]*/,
+		res is Ok ==> res->Ok_0 == eff_code(&*old(state), (*old(r)).rest()[0], (*old(r)).rest().subrange(1, 1 + payload_size(&*old(state), (*old(r)).rest()[0]))) /*[C12.returns_dispatched_code]*/,
+		res is Ok ==> (*final(state)).bytes_read == (*old(state)).bytes_read + 1 + payload_size(&*old(state), (*old(r)).rest()[0]) /*[C12.bytes_read_accounting]*/,
 		res is Ok ==> state_swf(&*final(state)) /*[C04.state_stays_well_formed]*/,
-		res is Ok ==> event_effect(&*old(state), &*final(state), r.rest()[0], r.rest().subrange(1, 1 + payload_size(&*old(state), r.rest()[0]))) /*[C04.event_effect]*/,
+		res is Ok ==> event_effect(&*old(state), &*final(state), (*old(r)).rest()[0], (*old(r)).rest().subrange(1, 1 + payload_size(&*old(state), (*old(r)).rest()[0]))) /*[C04.event_effect]*/,
+		(*final(r)).hit_eof() ==> res is Err /*[C07.eof_is_an_error]*/,
 //@end
-//@fn src/io/slippi/de.rs | - | parse_event | ret=res | twin=__post | drop=if let Some\(ref d\) = opts | drop=\*state\.event_counts\.entry | sub=/r.read_exact(&mut buf)?/r.read_exact(buf.as_mut_slice())?/ | sub=/bytes: buf.to_vec(),/bytes: to_vec_u8(&buf),/
-	requires within_input_bound(&*old(state)), state_swf(&*old(state)), r.inv(),
-		next_event_ok(&*old(state), r.rest()),
-		r.rest().len() >= 1 ==> r.rest()[0] == 0x38,
+//@fn src/io/slippi/de.rs | - | parse_event | ret=res | twin=__post | drop=if let Some\(ref d\) = opts | drop=\*state\.event_counts\.entry | sigsub=/mut r: R,/r: &mut R,/ | sub=/r.read_exact(&mut buf)?/r.read_exact(buf.as_mut_slice())?/ | sub=/bytes: buf.to_vec(),/bytes: to_vec_u8(&buf),/
+	requires within_input_bound(&*old(state)), state_swf(&*old(state)), (*old(r)).inv(),
+		next_event_ok(&*old(state), (*old(r)).rest()), !(*old(r)).hit_eof(),
+		(*old(r)).rest().len() >= 1 ==> (*old(r)).rest()[0] == 0x38,
 	ensures
-		res is Ok ==> r.rest().len() >= 1 && payload_size(&*old(state), r.rest()[0]) > 0 && r.rest().len() >= 1 + payload_size(&*old(state), r.rest()[0]) /*[C12.event_is_sized_by_table]*/,
-		res is Ok ==> res->Ok_0 == eff_code(&*old(state), r.rest()[0], r.rest().subrange(1, 1 + payload_size(&*old(state), r.rest()[0]))) /*[C12.returns_dispatched_code]*/,
-		res is Ok ==> (*final(state)).bytes_read == (*old(state)).bytes_read + 1 + payload_size(&*old(state), r.rest()[0]) /*[C12.bytes_read_accounting]*/,
+		(*final(r)).inv(),
+		res is Ok ==> consumed_one_event(&*old(state), &*old(r), &*final(r)) /*[C12.exactly_one_event_consumed]*/,
+		res is Ok ==> res->Ok_0 == eff_code(&*old(state), (*old(r)).rest()[0], (*old(r)).rest().subrange(1, 1 + payload_size(&*old(state), (*old(r)).rest()[0]))) /*[C12.returns_dispatched_code]*/,
+		res is Ok ==> (*final(state)).bytes_read == (*old(state)).bytes_read + 1 + payload_size(&*old(state), (*old(r)).rest()[0]) /*[C12.bytes_read_accounting]*/,
 		res is Ok ==> state_swf(&*final(state)) /*[C04.state_stays_well_formed]*/,
-		res is Ok ==> event_effect(&*old(state), &*final(state), r.rest()[0], r.rest().subrange(1, 1 + payload_size(&*old(state), r.rest()[0]))) /*[C04.event_effect]*/,
+		res is Ok ==> event_effect(&*old(state), &*final(state), (*old(r)).rest()[0], (*old(r)).rest().subrange(1, 1 + payload_size(&*old(state), (*old(r)).rest()[0]))) /*[C04.event_effect]*/,
+		(*final(r)).hit_eof() ==> res is Err /*[C07.eof_is_an_error]*/,
 //@end
-//@fn src/io/slippi/de.rs | - | parse_event | ret=res | twin=__start | drop=if let Some\(ref d\) = opts | drop=\*state\.event_counts\.entry | sub=/r.read_exact(&mut buf)?/r.read_exact(buf.as_mut_slice())?/ | sub=/bytes: buf.to_vec(),/bytes: to_vec_u8(&buf),/
-	requires within_input_bound(&*old(state)), state_swf(&*old(state)), r.inv(),
-		next_event_ok(&*old(state), r.rest()),
-		r.rest().len() >= 1 ==> r.rest()[0] == 0x3A,
+//@fn src/io/slippi/de.rs | - | parse_event | ret=res | twin=__start | drop=if let Some\(ref d\) = opts | drop=\*state\.event_counts\.entry | sigsub=/mut r: R,/r: &mut R,/ | sub=/r.read_exact(&mut buf)?/r.read_exact(buf.as_mut_slice())?/ | sub=/bytes: buf.to_vec(),/bytes: to_vec_u8(&buf),/
+	requires within_input_bound(&*old(state)), state_swf(&*old(state)), (*old(r)).inv(),
+		next_event_ok(&*old(state), (*old(r)).rest()), !(*old(r)).hit_eof(),
+		(*old(r)).rest().len() >= 1 ==> (*old(r)).rest()[0] == 0x3A,
 	ensures
-		res is Ok ==> r.rest().len() >= 1 && payload_size(&*old(state), r.rest()[0]) > 0 && r.rest().len() >= 1 + payload_size(&*old(state), r.rest()[0]) /*[C12.event_is_sized_by_table]*/,
-		res is Ok ==> res->Ok_0 == eff_code(&*old(state), r.rest()[0], r.rest().subrange(1, 1 + payload_size(&*old(state), r.rest()[0]))) /*[C12.returns_dispatched_code]*/,
-		res is Ok ==> (*final(state)).bytes_read == (*old(state)).bytes_read + 1 + payload_size(&*old(state), r.rest()[0]) /*[C12.bytes_read_accounting]*/,
+		(*final(r)).inv(),
+		res is Ok ==> consumed_one_event(&*old(state), &*old(r), &*final(r)) /*[C12.exactly_one_event_consumed]*/,
+		res is Ok ==> res->Ok_0 == eff_code(&*old(state), (*old(r)).rest()[0], (*old(r)).rest().subrange(1, 1 + payload_size(&*old(state), (*old(r)).rest()[0]))) /*[C12.returns_dispatched_code]*/,
+		res is Ok ==> (*final(state)).bytes_read == (*old(state)).bytes_read + 1 + payload_size(&*old(state), (*old(r)).rest()[0]) /*[C12.bytes_read_accounting]*/,
 		res is Ok ==> state_swf(&*final(state)) /*[C04.state_stays_well_formed]*/,
-		res is Ok ==> event_effect(&*old(state), &*final(state), r.rest()[0], r.rest().subrange(1, 1 + payload_size(&*old(state), r.rest()[0]))) /*[C04.event_effect]*/,
+		res is Ok ==> event_effect(&*old(state), &*final(state), (*old(r)).rest()[0], (*old(r)).rest().subrange(1, 1 + payload_size(&*old(state), (*old(r)).rest()[0]))) /*[C04.event_effect]*/,
+		(*final(r)).hit_eof() ==> res is Err /*[C07.eof_is_an_error]*/,
 //@end
-//@fn src/io/slippi/de.rs | - | parse_event | ret=res | twin=__item | drop=if let Some\(ref d\) = opts | drop=\*state\.event_counts\.entry | sub=/r.read_exact(&mut buf)?/r.read_exact(buf.as_mut_slice())?/ | sub=/bytes: buf.to_vec(),/bytes: to_vec_u8(&buf),/
-	requires within_input_bound(&*old(state)), state_swf(&*old(state)), r.inv(),
-		next_event_ok(&*old(state), r.rest()),
-		r.rest().len() >= 1 ==> r.rest()[0] == 0x3B,
+//@fn src/io/slippi/de.rs | - | parse_event | ret=res | twin=__item | drop=if let Some\(ref d\) = opts | drop=\*state\.event_counts\.entry | sigsub=/mut r: R,/r: &mut R,/ | sub=/r.read_exact(&mut buf)?/r.read_exact(buf.as_mut_slice())?/ | sub=/bytes: buf.to_vec(),/bytes: to_vec_u8(&buf),/
+	requires within_input_bound(&*old(state)), state_swf(&*old(state)), (*old(r)).inv(),
+		next_event_ok(&*old(state), (*old(r)).rest()), !(*old(r)).hit_eof(),
+		(*old(r)).rest().len() >= 1 ==> (*old(r)).rest()[0] == 0x3B,
 	ensures
-		res is Ok ==> r.rest().len() >= 1 && payload_size(&*old(state), r.rest()[0]) > 0 && r.rest().len() >= 1 + payload_size(&*old(state), r.rest()[0]) /*[C12.event_is_sized_by_table]*/,
-		res is Ok ==> res->Ok_0 == eff_code(&*old(state), r.rest()[0], r.rest().subrange(1, 1 + payload_size(&*old(state), r.rest()[0]))) /*[C12.returns_dispatched_code]*/,
-		res is Ok ==> (*final(state)).bytes_read == (*old(state)).bytes_read + 1 + payload_size(&*old(state), r.rest()[0]) /*[C12.bytes_read_accounting]*/,
+		(*final(r)).inv(),
+		res is Ok ==> consumed_one_event(&*old(state), &*old(r), &*final(r)) /*[C12.exactly_one_event_consumed]*/,
+		res is Ok ==> res->Ok_0 == eff_code(&*old(state), (*old(r)).rest()[0], (*old(r)).rest().subrange(1, 1 + payload_size(&*old(state), (*old(r)).rest()[0]))) /*[C12.returns_dispatched_code]*/,
+		res is Ok ==> (*final(state)).bytes_read == (*old(state)).bytes_read + 1 + payload_size(&*old(state), (*old(r)).rest()[0]) /*[C12.bytes_read_accounting]*/,
 		res is Ok ==> state_swf(&*final(state)) /*[C04.state_stays_well_formed]*/,
-		res is Ok ==> event_effect(&*old(state), &*final(state), r.rest()[0], r.rest().subrange(1, 1 + payload_size(&*old(state), r.rest()[0]))) /*[C04.event_effect]*/,
+		res is Ok ==> event_effect(&*old(state), &*final(state), (*old(r)).rest()[0], (*old(r)).rest().subrange(1, 1 + payload_size(&*old(state), (*old(r)).rest()[0]))) /*[C04.event_effect]*/,
+		(*final(r)).hit_eof() ==> res is Err /*[C07.eof_is_an_error]*/,
 //@end
-//@fn src/io/slippi/de.rs | - | parse_event | ret=res | twin=__end | drop=if let Some\(ref d\) = opts | drop=\*state\.event_counts\.entry | sub=/r.read_exact(&mut buf)?/r.read_exact(buf.as_mut_slice())?/ | sub=/bytes: buf.to_vec(),/bytes: to_vec_u8(&buf),/
-	requires within_input_bound(&*old(state)), state_swf(&*old(state)), r.inv(),
-		next_event_ok(&*old(state), r.rest()),
-		r.rest().len() >= 1 ==> r.rest()[0] == 0x3C,
+//@fn src/io/slippi/de.rs | - | parse_event | ret=res | twin=__end | drop=if let Some\(ref d\) = opts | drop=\*state\.event_counts\.entry | sigsub=/mut r: R,/r: &mut R,/ | sub=/r.read_exact(&mut buf)?/r.read_exact(buf.as_mut_slice())?/ | sub=/bytes: buf.to_vec(),/bytes: to_vec_u8(&buf),/
+	requires within_input_bound(&*old(state)), state_swf(&*old(state)), (*old(r)).inv(),
+		next_event_ok(&*old(state), (*old(r)).rest()), !(*old(r)).hit_eof(),
+		(*old(r)).rest().len() >= 1 ==> (*old(r)).rest()[0] == 0x3C,
 	ensures
-		res is Ok ==> r.rest().len() >= 1 && payload_size(&*old(state), r.rest()[0]) > 0 && r.rest().len() >= 1 + payload_size(&*old(state), r.rest()[0]) /*[C12.event_is_sized_by_table]*/,
-		res is Ok ==> res->Ok_0 == eff_code(&*old(state), r.rest()[0], r.rest().subrange(1, 1 + payload_size(&*old(state), r.rest()[0]))) /*[C12.returns_dispatched_code]*/,
-		res is Ok ==> (*final(state)).bytes_read == (*old(state)).bytes_read + 1 + payload_size(&*old(state), r.rest()[0]) /*[C12.bytes_read_accounting]*/,
+		(*final(r)).inv(),
+		res is Ok ==> consumed_one_event(&*old(state), &*old(r), &*final(r)) /*[C12.exactly_one_event_consumed]*/,
+		res is Ok ==> res->Ok_0 == eff_code(&*old(state), (*old(r)).rest()[0], (*old(r)).rest().subrange(1, 1 + payload_size(&*old(state), (*old(r)).rest()[0]))) /*[C12.returns_dispatched_code]*/,
+		res is Ok ==> (*final(state)).bytes_read == (*old(state)).bytes_read + 1 + payload_size(&*old(state), (*old(r)).rest()[0]) /*[C12.bytes_read_accounting]*/,
 		res is Ok ==> state_swf(&*final(state)) /*[C04.state_stays_well_formed]*/,
-		res is Ok ==> event_effect(&*old(state), &*final(state), r.rest()[0], r.rest().subrange(1, 1 + payload_size(&*old(state), r.rest()[0]))) /*[C04.event_effect]*/,
+		res is Ok ==> event_effect(&*old(state), &*final(state), (*old(r)).rest()[0], (*old(r)).rest().subrange(1, 1 + payload_size(&*old(state), (*old(r)).rest()[0]))) /*[C04.event_effect]*/,
+		(*final(r)).hit_eof() ==> res is Err /*[C07.eof_is_an_error]*/,
 //@end
-//@fn src/io/slippi/de.rs | - | parse_event | ret=res | twin=__splitter | drop=if let Some\(ref d\) = opts | drop=\*state\.event_counts\.entry | sub=/r.read_exact(&mut buf)?/r.read_exact(buf.as_mut_slice())?/ | sub=/bytes: buf.to_vec(),/bytes: to_vec_u8(&buf),/
-	requires within_input_bound(&*old(state)), state_swf(&*old(state)), r.inv(),
-		next_event_ok(&*old(state), r.rest()),
-		r.rest().len() >= 1 ==> r.rest()[0] == 0x10,
+//@fn src/io/slippi/de.rs | - | parse_event | ret=res | twin=__splitter | drop=if let Some\(ref d\) = opts | drop=\*state\.event_counts\.entry | sigsub=/mut r: R,/r: &mut R,/ | sub=/r.read_exact(&mut buf)?/r.read_exact(buf.as_mut_slice())?/ | sub=/bytes: buf.to_vec(),/bytes: to_vec_u8(&buf),/
+	requires within_input_bound(&*old(state)), state_swf(&*old(state)), (*old(r)).inv(),
+		next_event_ok(&*old(state), (*old(r)).rest()), !(*old(r)).hit_eof(),
+		(*old(r)).rest().len() >= 1 ==> (*old(r)).rest()[0] == 0x10,
 	ensures
-		res is Ok ==> r.rest().len() >= 1 && payload_size(&*old(state), r.rest()[0]) > 0 && r.rest().len() >= 1 + payload_size(&*old(state), r.rest()[0]) /*[C12.event_is_sized_by_table]*/,
-		res is Ok ==> res->Ok_0 == eff_code(&*old(state), r.rest()[0], r.rest().subrange(1, 1 + payload_size(&*old(state), r.rest()[0]))) /*[C12.returns_dispatched_code]*/,
-		res is Ok ==> (*final(state)).bytes_read == (*old(state)).bytes_read + 1 + payload_size(&*old(state), r.rest()[0]) /*[C12.bytes_read_accounting]*/,
+		(*final(r)).inv(),
+		res is Ok ==> consumed_one_event(&*old(state), &*old(r), &*final(r)) /*[C12.exactly_one_event_consumed]*/,
+		res is Ok ==> res->Ok_0 == eff_code(&*old(state), (*old(r)).rest()[0], (*old(r)).rest().subrange(1, 1 + payload_size(&*old(state), (*old(r)).rest()[0]))) /*[C12.returns_dispatched_code]*/,
+		res is Ok ==> (*final(state)).bytes_read == (*old(state)).bytes_read + 1 + payload_size(&*old(state), (*old(r)).rest()[0]) /*[C12.bytes_read_accounting]*/,
 		res is Ok ==> state_swf(&*final(state)) /*[C04.state_stays_well_formed]*/,
-		res is Ok ==> event_effect(&*old(state), &*final(state), r.rest()[0], r.rest().subrange(1, 1 + payload_size(&*old(state), r.rest()[0]))) /*[C04.event_effect]*/,
+		res is Ok ==> event_effect(&*old(state), &*final(state), (*old(r)).rest()[0], (*old(r)).rest().subrange(1, 1 + payload_size(&*old(state), (*old(r)).rest()[0]))) /*[C04.event_effect]*/,
+		(*final(r)).hit_eof() ==> res is Err /*[C07.eof_is_an_error]*/,
 //@end
-//@fn src/io/slippi/de.rs | - | parse_event | ret=res | twin=__other | drop=if let Some\(ref d\) = opts | drop=\*state\.event_counts\.entry | sub=/r.read_exact(&mut buf)?/r.read_exact(buf.as_mut_slice())?/ | sub=/bytes: buf.to_vec(),/bytes: to_vec_u8(&buf),/
-	requires within_input_bound(&*old(state)), state_swf(&*old(state)), r.inv(),
-		next_event_ok(&*old(state), r.rest()),
-		r.rest().len() >= 1 ==> r.rest()[0] != 0x37 && r.rest()[0] != 0x38 && r.rest()[0] != 0x3A && r.rest()[0] != 0x3B && r.rest()[0] != 0x3C && r.rest()[0] != 0x10,
+//@fn src/io/slippi/de.rs | - | parse_event | ret=res | twin=__other | drop=if let Some\(ref d\) = opts | drop=\*state\.event_counts\.entry | sigsub=/mut r: R,/r: &mut R,/ | sub=/r.read_exact(&mut buf)?/r.read_exact(buf.as_mut_slice())?/ | sub=/bytes: buf.to_vec(),/bytes: to_vec_u8(&buf),/
+	requires within_input_bound(&*old(state)), state_swf(&*old(state)), (*old(r)).inv(),
+		next_event_ok(&*old(state), (*old(r)).rest()), !(*old(r)).hit_eof(),
+		(*old(r)).rest().len() >= 1 ==> (*old(r)).rest()[0] != 0x37 && (*old(r)).rest()[0] != 0x38 && (*old(r)).rest()[0] != 0x3A && (*old(r)).rest()[0] != 0x3B && (*old(r)).rest()[0] != 0x3C && (*old(r)).rest()[0] != 0x10,
 	ensures
-		res is Ok ==> r.rest().len() >= 1 && payload_size(&*old(state), r.rest()[0]) > 0 && r.rest().len() >= 1 + payload_size(&*old(state), r.rest()[0]) /*[C12.event_is_sized_by_table]*/,
-		res is Ok ==> res->Ok_0 == eff_code(&*old(state), r.rest()[0], r.rest().subrange(1, 1 + payload_size(&*old(state), r.rest()[0]))) /*[C12.returns_dispatched_code]*/,
-		res is Ok ==> (*final(state)).bytes_read == (*old(state)).bytes_read + 1 + payload_size(&*old(state), r.rest()[0]) /*[C12.bytes_read_accounting]*/,
+		(*final(r)).inv(),
+		res is Ok ==> consumed_one_event(&*old(state), &*old(r), &*final(r)) /*[C12.exactly_one_event_consumed]*/,
+		res is Ok ==> res->Ok_0 == eff_code(&*old(state), (*old(r)).rest()[0], (*old(r)).rest().subrange(1, 1 + payload_size(&*old(state), (*old(r)).rest()[0]))) /*[C12.returns_dispatched_code]*/,
+		res is Ok ==> (*final(state)).bytes_read == (*old(state)).bytes_read + 1 + payload_size(&*old(state), (*old(r)).rest()[0]) /*[C12.bytes_read_accounting]*/,
 		res is Ok ==> state_swf(&*final(state)) /*[C04.state_stays_well_formed]*/,
-		res is Ok ==> event_effect(&*old(state), &*final(state), r.rest()[0], r.rest().subrange(1, 1 + payload_size(&*old(state), r.rest()[0]))) /*[C04.event_effect]*/,
+		res is Ok ==> event_effect(&*old(state), &*final(state), (*old(r)).rest()[0], (*old(r)).rest().subrange(1, 1 + payload_size(&*old(state), (*old(r)).rest()[0]))) /*[C04.event_effect]*/,
+		(*final(r)).hit_eof() ==> res is Err /*[C07.eof_is_an_error]*/,
 //@end
 
 // ---- C06: the same bodies with NO premise on the bytes: every assert / unwrap / index / arithmetic site must be safe ----
 //@fn src/io/slippi/de.rs | - | handle_splitter_event | ret=res | twin=__total
 	requires (*old(accumulator)).actual_size <= 0x7fff_ffff,
-	ensures true,
+	ensures res is Ok ==> (*final(accumulator)).actual_size <= (*old(accumulator)).actual_size + 512,
 //@end
-//@fn src/io/slippi/de.rs | - | parse_event | ret=res | twin=__total | drop=if let Some\(ref d\) = opts | drop=\*state\.event_counts\.entry | sub=/r.read_exact(&mut buf)?/r.read_exact(buf.as_mut_slice())?/ | sub=/bytes: buf.to_vec(),/bytes: to_vec_u8(&buf),/ | sub=/handle_splitter_event(/handle_splitter_event__total(/ | sub=/state.frame_close();/state.frame_close__total();/
-	requires within_input_bound(&*old(state)), state_swf(&*old(state)), r.inv(),
-	ensures res is Ok ==> state_swf(&*final(state)) /*[C06.state_stays_well_formed]*/,
+//@fn src/io/slippi/de.rs | - | parse_event | ret=res | twin=__total | drop=if let Some\(ref d\) = opts | drop=\*state\.event_counts\.entry | sigsub=/mut r: R,/r: &mut R,/ | sub=/r.read_exact(&mut buf)?/r.read_exact(buf.as_mut_slice())?/ | sub=/bytes: buf.to_vec(),/bytes: to_vec_u8(&buf),/ | sub=/handle_splitter_event(/handle_splitter_event__total(/ | sub=/state.frame_close();/state.frame_close__total();/
+	requires within_input_bound(&*old(state)), state_swf(&*old(state)), (*old(r)).inv(), !(*old(r)).hit_eof(),
+	ensures (*final(r)).inv(),
+		res is Ok ==> state_swf(&*final(state)) /*[C06.state_stays_well_formed]*/,
+		res is Ok ==> consumed_one_event(&*old(state), &*old(r), &*final(r)) /*[C12.exactly_one_event_consumed]*/,
+		res is Ok ==> (*final(state)).bytes_read == (*old(state)).bytes_read + 1 + payload_size(&*old(state), (*old(r)).rest()[0]) /*[C12.bytes_read_accounting]*/,
+		res is Ok ==> (*final(state)).payload_sizes == (*old(state)).payload_sizes && (*final(state)).game.start == (*old(state)).game.start,
+		res is Ok ==> (*final(state)).game.frames.id@.len() <= (*old(state)).game.frames.id@.len() + 1 /*[C12.at_most_one_row_per_event]*/,
+		res is Ok ==> (*final(state)).game.frames.id@.len() >= (*old(state)).game.frames.id@.len() /*[C12.frame_count_never_decreases]*/,
+		res is Ok ==> (*final(state)).split_accumulator.actual_size <= (*old(state)).split_accumulator.actual_size + 512,
+		(*final(r)).hit_eof() ==> res is Err /*[C07.eof_is_an_error]*/,
 //@end
 '''
 
